@@ -4,6 +4,7 @@ package c16
 
 import (
 	"fmt"
+	"slices"
 	"sort"
 	"sync"
 	"testing"
@@ -126,7 +127,7 @@ func TestC16Random(t *testing.T) {
 	}
 }
 
-func ownershipSpread(tokens []uint32, owner map[uint32]int, n int) (spread float64, minO, maxO int64) {
+func ownershipSpread(tokens []uint32, owners []int32, n int) (spread float64, minO, maxO int64) {
 	own := make([]int64, n)
 	for i, t := range tokens {
 		var prev uint32
@@ -139,7 +140,7 @@ func ownershipSpread(tokens []uint32, owner map[uint32]int, n int) (spread float
 		if d <= 0 {
 			d += 1 << 32
 		}
-		own[owner[t]] += d
+		own[owners[i]] += d
 	}
 	minO, maxO = own[0], own[0]
 	for _, o := range own {
@@ -155,11 +156,11 @@ func ownershipSpread(tokens []uint32, owner map[uint32]int, n int) (spread float
 
 func TestC16SpreadMinimizing(t *testing.T) {
 	rep := ev.NewReport("C16", "spread-minimizing")
-	N, ownLimit := 1300, 96
+	N, ownLimit, nPart := 1300, 96, 64
 	if ev.Thorough() {
-		N, ownLimit = 2000, 256
+		N, ownLimit, nPart = 2000, 256, 192
 	}
-	rep.Bound = fmt.Sprintf("zone indexes 0..7, instance indexes 0..%d (indexes <= "+fmt.Sprint(ownLimit)+" and every 256th computed by their own generator, all others read from the largest generator and checked for order, congruence, disjointness and spread), every prefix 0..m, GenerateTokens with requested ∈ {0,1,511,512,513} × taken ∈ {∅, first, all, all but one}, partition rings built by AddPartition 0..%d", N, N/2)
+	rep.Bound = fmt.Sprintf("zone indexes 0..7, instance indexes 0..%d (indexes <= "+fmt.Sprint(ownLimit)+" and every 256th computed by their own generator, all others read from the largest generator and checked for order, congruence, disjointness and spread), every prefix 0..m, GenerateTokens with requested ∈ {0,1,511,512,513} × taken ∈ {∅, first, all, all but one}, partition rings built by AddPartition 0..%d", N, nPart)
 	rep.Rule = "per (zone, index): 512 sorted distinct tokens ≡ zone (mod 8), equal to what the generator of the largest index attributes to that index, disjoint from every other (index, zone); for every prefix of instances the per-instance ownership spread 1-min/max <= 1%; distinct_nontrivial = (zone,index) pairs checked"
 	deadline := ev.Deadline(15 * time.Minute)
 	var mu sync.Mutex
@@ -215,7 +216,7 @@ func TestC16SpreadMinimizing(t *testing.T) {
 		// reproducibility: equal to what the generator for N attributes to k
 		ref := append(ring.Tokens(nil), byZone[z][k]...)
 		sort.Slice(ref, func(i, j int) bool { return ref[i] < ref[j] })
-		if fmt.Sprint(ref) != fmt.Sprint(toks) {
+		if !slices.Equal([]uint32(ref), []uint32(toks)) {
 			rep.Violate("sm:repro:"+cs, fmt.Sprintf("%s: tokens computed by the instance itself differ from those the generator of index %d attributes to it", cs, N), nil)
 		}
 		// second call: same answer (pure)
@@ -269,27 +270,27 @@ func TestC16SpreadMinimizing(t *testing.T) {
 			if byZone[z] == nil {
 				return
 			}
-			owner := map[uint32]int{}
 			var tokens []uint32
+			var owners []int32
 			for m := 0; m <= N; m++ {
 				add := append([]uint32(nil), byZone[z][m]...)
 				sort.Slice(add, func(i, j int) bool { return add[i] < add[j] })
-				for _, tk := range add {
-					owner[tk] = m
-				}
 				merged := make([]uint32, 0, len(tokens)+len(add))
+				mo := make([]int32, 0, len(tokens)+len(add))
 				i, j := 0, 0
 				for i < len(tokens) || j < len(add) {
 					if j >= len(add) || (i < len(tokens) && tokens[i] < add[j]) {
 						merged = append(merged, tokens[i])
+						mo = append(mo, owners[i])
 						i++
 					} else {
 						merged = append(merged, add[j])
+						mo = append(mo, int32(m))
 						j++
 					}
 				}
-				tokens = merged
-				spread, minO, maxO := ownershipSpread(tokens, owner, m+1)
+				tokens, owners = merged, mo
+				spread, minO, maxO := ownershipSpread(tokens, owners, m+1)
 				rep.Eval(1)
 				rep.Trans(1)
 				if spread > 0.01 {
@@ -305,7 +306,7 @@ func TestC16SpreadMinimizing(t *testing.T) {
 	desc := ring.NewPartitionRingDesc()
 	seen := map[uint32]int32{}
 	now := time.Unix(1000, 0)
-	for p := int32(0); p <= int32(N/2); p++ {
+	for p := int32(0); p <= int32(nPart); p++ {
 		desc.AddPartition(p, ring.PartitionActive, now)
 		toks := desc.Partitions[p].Tokens
 		rep.Eval(1)
